@@ -210,3 +210,139 @@ pub fn cancelling_quads(k: usize) -> (Fe, Fe) {
         }
     }
 }
+
+// ---------------------------------------------------------------- cubic roots
+
+type P3 = [Fe; 3]; // polynomial of degree < 3, little-endian
+
+/// a * b mod f, f monic cubic x^3 + f2 x^2 + f1 x + f0
+fn mulmod3(a: &P3, b: &P3, f: &[Fe; 3]) -> P3 {
+    let mut t = [zero(); 5];
+    for i in 0..3 {
+        for j in 0..3 {
+            t[i + j] += a[i] * b[j];
+        }
+    }
+    // reduce x^4, x^3 using x^3 = -(f2 x^2 + f1 x + f0)
+    for k in (3..5).rev() {
+        let c = t[k];
+        t[k] = zero();
+        t[k - 1] -= c * f[2];
+        t[k - 2] -= c * f[1];
+        t[k - 3] -= c * f[0];
+    }
+    [t[0], t[1], t[2]]
+}
+
+fn powmod3(base: &P3, exp: &U320, f: &[Fe; 3]) -> P3 {
+    let mut acc: P3 = [one(), zero(), zero()];
+    for i in (0..exp.bits()).rev() {
+        acc = mulmod3(&acc, &acc, f);
+        if exp.bit(i) == 1 {
+            acc = mulmod3(&acc, base, f);
+        }
+    }
+    acc
+}
+
+fn poly_trim(mut p: Vec<Fe>) -> Vec<Fe> {
+    while p.last().map_or(false, |c| *c == zero()) {
+        p.pop();
+    }
+    p
+}
+fn poly_rem(a: &[Fe], b: &[Fe]) -> Vec<Fe> {
+    let mut a = poly_trim(a.to_vec());
+    let b = poly_trim(b.to_vec());
+    if b.is_empty() {
+        return a;
+    }
+    let lb = inv(*b.last().unwrap());
+    while a.len() >= b.len() {
+        let c = *a.last().unwrap() * lb;
+        let off = a.len() - b.len();
+        for i in 0..b.len() {
+            a[off + i] -= c * b[i];
+        }
+        a = poly_trim(a);
+        if a.is_empty() {
+            break;
+        }
+    }
+    a
+}
+fn poly_gcd(a: &[Fe], b: &[Fe]) -> Vec<Fe> {
+    let (mut x, mut y) = (poly_trim(a.to_vec()), poly_trim(b.to_vec()));
+    while !y.is_empty() {
+        let r = poly_rem(&x, &y);
+        x = y;
+        y = r;
+    }
+    if let Some(l) = x.last().copied() {
+        let li = inv(l);
+        for c in x.iter_mut() {
+            *c *= li;
+        }
+    }
+    x
+}
+
+/// All roots in the field of c3 x^3 + c2 x^2 + c1 x + c0 (c3 != 0), by
+/// gcd with x^r - x and equal-degree splitting (own code).
+pub fn cubic_roots(c: [Fe; 4]) -> Vec<Fe> {
+    assert!(c[3] != zero());
+    let li = inv(c[3]);
+    let f = [c[0] * li, c[1] * li, c[2] * li];
+    let fm = vec![f[0], f[1], f[2], one()];
+    let r = U320::modulus();
+    // x^r mod f
+    let xr = powmod3(&[zero(), one(), zero()], &r, &f);
+    let mut h = vec![xr[0], xr[1] - one(), xr[2]]; // x^r - x
+    h = poly_trim(h);
+    let g = if h.is_empty() { fm.clone() } else { poly_gcd(&fm, &h) };
+    let mut roots = vec![];
+    let mut stack = vec![g];
+    let half = {
+        // (r - 1) / 2
+        let rm1 = r.sub(&U320::from_u64(1));
+        rm1.shr(1)
+    };
+    let mut shift = zero();
+    let mut guard = 0;
+    while let Some(p) = stack.pop() {
+        guard += 1;
+        if guard > 200 {
+            break;
+        }
+        match p.len() {
+            0 | 1 => {}
+            2 => roots.push(-p[0] * inv(p[1])),
+            _ => {
+                // split with gcd(p, (x + s)^((r-1)/2) - 1)
+                shift += one();
+                let base: P3 = [shift, one(), zero()];
+                let e = powmod3(&base, &half, &f);
+                let q = poly_trim(vec![e[0] - one(), e[1], e[2]]);
+                let d = poly_gcd(&p, &q);
+                if d.len() <= 1 || d.len() == p.len() {
+                    stack.push(p);
+                    continue;
+                }
+                // p / d
+                let mut quo = vec![zero(); p.len() - d.len() + 1];
+                let mut rem = p.clone();
+                for i in (0..quo.len()).rev() {
+                    let cc = rem[i + d.len() - 1];
+                    quo[i] = cc;
+                    for j in 0..d.len() {
+                        rem[i + j] -= cc * d[j];
+                    }
+                }
+                stack.push(d);
+                stack.push(quo);
+            }
+        }
+    }
+    roots.retain(|x| c[0] + *x * (c[1] + *x * (c[2] + *x * c[3])) == zero());
+    roots
+}
